@@ -117,7 +117,8 @@ def gen(cls, idx, rng, tier):
             v = "dev%d" % len(vertices)
             xy = rng.choice(chips)
             l = rng.randrange(6)
-            vertices.append((v, {}))
+            vertices.append((v, rng.choice([{}, {}, {"Cores": 0},
+                                            {"Cores": 1}])))
             cons.append(("loc", v, xy))
             cons.append(("endpoint", v, l))
             dead_links.add((xy[0], xy[1], l))
